@@ -10,7 +10,7 @@ from sa.cf import cfg_of
 from sa.pm import FuncInfo, call_name, norm, self_attr, walk_local_ordered
 from sa.report import Ob, rule
 
-from .common import attr_stores, ob, strip_ret, traces
+from .common import attr_stores, expand, ob, strip_ret, traces
 
 MQ = 'zeroconf._handlers.multicast_outgoing_queue.MulticastOutgoingQueue'
 LS = 'zeroconf._listener.AsyncListener'
@@ -142,6 +142,19 @@ def window(ctx: Any) -> List[Ob]:
     return obs
 
 
+def _tsym(attrs: Dict[str, str]) -> Any:
+    """Symbols for timing forms: the given attributes, and NOW for a read of the clock (locals are expanded first)."""
+
+    def sym(x: ast.AST) -> Optional[str]:
+        if isinstance(x, ast.Attribute) and x.attr in attrs:
+            return attrs[x.attr]
+        if isinstance(x, ast.Call) and call_name(x) == 'current_time_millis':
+            return 'NOW'
+        return None
+
+    return sym
+
+
 @rule('C12.WIRING', 'D', expect_min=8)
 def wiring(ctx: Any) -> List[Ob]:
     """Flush logic of the queue and the truncated-query timer: the flush waits for
@@ -194,7 +207,7 @@ def wiring(ctx: Any) -> List[Ob]:
         cm = [v for v in whiles[0].test.values if isinstance(v, ast.Compare)]
         if len(cm) == 1:
             try:
-                p, op = lf.comparison(prog, rdy.module, cm[0], lambda x: 'AFTER' if isinstance(x, ast.Attribute) and x.attr == 'send_after' else ('NOW' if isinstance(x, ast.Name) else None))
+                p, op = lf.comparison(prog, rdy.module, expand(rdy, cm[0]), _tsym({'send_after': 'AFTER'}))
                 ok_w = lf.same_cmp((p, op), lf.parse_cmp('AFTER - NOW <= 0')) and any(isinstance(c, ast.Call) and call_name(c) == 'popleft' for c in ast.walk(whiles[0]))
             except lf.NotLinear:
                 pass
@@ -211,7 +224,7 @@ def wiring(ctx: Any) -> List[Ob]:
         t = c.args[0]
         ms = [p for p in ast.walk(t) if isinstance(p, ast.Call) and call_name(p) == 'millis_to_seconds']
         try:
-            d = lf.poly(prog, rdy.module, ms[0].args[0], lambda x: ('T' if isinstance(x, ast.Attribute) and x.attr == fld else ('NOW' if isinstance(x, ast.Name) else None)))
+            d = lf.poly(prog, rdy.module, expand(rdy, ms[0].args[0]), _tsym({fld: 'T'}))
             ok_t = ok_t and d == lf.parse_poly('T - NOW')
         except (lf.NotLinear, IndexError):
             ok_t = False
@@ -223,7 +236,7 @@ def wiring(ctx: Any) -> List[Ob]:
         try:
             a, b = ifs[0].test.values
             p1, o1 = lf.comparison(prog, rdy.module, a, lambda x: 'N' if isinstance(x, ast.Call) and norm(x.func) == 'len' else None)
-            p2, o2 = lf.comparison(prog, rdy.module, b, lambda x: 'BEFORE' if isinstance(x, ast.Attribute) and x.attr == 'send_before' else ('NOW' if isinstance(x, ast.Name) else None))
+            p2, o2 = lf.comparison(prog, rdy.module, expand(rdy, b), _tsym({'send_before': 'BEFORE'}))
             ok_h = lf.same_cmp((p1, o1), lf.parse_cmp('1 - N < 0')) and lf.same_cmp((p2, o2), lf.parse_cmp('NOW - BEFORE < 0')) and any(isinstance(x, ast.Return) for x in ifs[0].body)
         except lf.NotLinear:
             pass
@@ -269,11 +282,22 @@ def wiring(ctx: Any) -> List[Ob]:
     return obs
 
 
+@rule('C12.ROUTE', 'D', expect_min=10)
+def route12(ctx: Any) -> List[Ob]:
+    """Which answers are sent at once, aggregated, or held by the one-second protection: the decision
+    table of the multicast answer routine (probe replies at once; a record seen < 1 s ago waits in the
+    protected queue -- this test comes before the single-question shortcut; a single SRV/A/AAAA/NSEC
+    question at once; everything else aggregated).  Same table as C11.ROUTE part (c)."""
+    from .c11 import mcast_table
+
+    return mcast_table(ctx, 'C12.ROUTE')
+
+
 EXPLANATION = (
     'C12.WINDOW (decided): the send window of queued answers normalised to linear forms over now / random draw / the two delays, '
     'with the queue constructions folded to (0, 500) and (1000, 200) and the 20-120 / 400-500 ms intervals; last-second test as a '
     'linear form. C12.WIRING (decided): flush logic (wait for first deadline, take due groups, re-arm for the remainder, de-duplicate '
-    'before sending) and the truncated-query timer discipline. Routing into the queues: C11.ROUTE. Not decided: every bound over '
+    'before sending) and the truncated-query timer discipline. C12.ROUTE (decided): decision table of which answers go at once / aggregated / protected (shared with C11.ROUTE). Not decided: every bound over '
     'arrival schedules and random draws [X].'
 )
-RULES = [window, wiring]
+RULES = [window, wiring, route12]
